@@ -120,8 +120,13 @@ def new_gateway(version: str | None = None, *, metric: bool = True,
 
 
 def fields_of(message: Any) -> tuple:
-    return (message.node_id, message.child_id, message.command, message.ack,
-            message.message_type, message.payload)
+    """The six field values of a yielded / decoded message; anything that is not a message (None, a dict, ...) gives a
+    tuple that equals no expectation, so the oracles report it instead of the harness crashing."""
+    try:
+        return (message.node_id, message.child_id, message.command, message.ack,
+                message.message_type, message.payload)
+    except AttributeError:
+        return ("<not a message>", type(message).__name__, repr(message)[:60])
 
 
 def line_of(fields: tuple | list) -> str:
@@ -226,3 +231,18 @@ def run(coro):
 
 def make_message(fields: tuple | list) -> Message:
     return Message(*fields)
+
+
+def scenario_exception(ctx, exc: BaseException, case: dict, where: str) -> None:
+    """A scenario coroutine ended with an exception nobody in the scenario expected.  Raised by library code (innermost
+    frame outside the harness): an observation - violation `<where>-raised`.  Raised by harness code (a helper tripping
+    over what it was handed): the run is inconclusive, never a verdict."""
+    import traceback
+
+    frames = traceback.extract_tb(exc.__traceback__)
+    innermost = frames[-1].filename if frames else ""
+    if "/vf/" in innermost and "/aiomysensors/" not in innermost:
+        ctx.inconclusive.append(f"harness error in {where}: {type(exc).__name__}: {exc!s:.200} at {innermost}:{frames[-1].lineno}")
+    else:
+        ctx.violation(f"{where}-raised", f"{where}: unexpected {type(exc).__name__}: {exc!s:.120} "
+                                         f"(raised in {innermost.rsplit('/', 2)[-1] if innermost else '?'})", case)
